@@ -365,6 +365,40 @@ func runC08(r *ev.Run) {
 		}
 	})
 
+	// counter boundaries: the generation counter is 8 bits wide; instances that have made 255, 256, 257, 512 and 513
+	// searches since their last Clear() are cleared and must answer like a fresh instance (and like their twin)
+	var genRuns atomic.Int64
+	genCounts := []int{255, 256, 257, 512, 513}
+	ev.Parallel(len(genCounts)*2, func(worker, item int) {
+		n, tt := genCounts[item/2], []int{32000, 1 << 20}[item%2]
+		warm := []string{"8/8/8/4k3/8/8/4P3/4K3 w - - 0 1", "4k3/8/8/8/8/8/8/4K2R w K - 0 1", "r3k2r/8/8/8/8/3r4/8/R3K2R w KQkq - 0 1", "8/P7/8/8/8/8/7p/K1k5 w - - 0 1"}
+		sA, sB, fresh := search.New(tt), search.New(tt), search.New(tt)
+		var reqs []searchReq
+		for i := 0; i < n; i++ {
+			q := searchReq{FEN: warm[i%len(warm)], Depth: 1 + i%3, Nodes: -1, SoftNodes: -1, TT: tt}
+			h, _ := newHistory(q.FEN, nil)
+			rA := runSearch(sA, h.B, q)
+			rB := runSearch(sB, h.B, q)
+			reqs = append(reqs, q)
+			genRuns.Add(2)
+			if i >= n-3 {
+				if d := c08Observe(sA, &rA).diff(c08Observe(sB, &rB), true); d != "" {
+					r.Fail("twin", c08Case{Kind: "twin", Requests: reqs}, "two instances driven identically differ at search %d: %s", i, d)
+					return
+				}
+			}
+		}
+		sA.Clear()
+		q := searchReq{FEN: "r1bqkbnr/pppp1ppp/2n5/4p3/4P3/5N2/PPPP1PPP/RNBQKB1R w KQkq - 2 3", Depth: 5, Nodes: -1, SoftNodes: -1, TT: tt}
+		h, _ := newHistory(q.FEN, nil)
+		rU := runSearch(sA, h.B, q)
+		rF := runSearch(fresh, h.B, q)
+		if d := c08Observe(sA, &rU).diff(c08Observe(fresh, &rF), true); d != "" {
+			r.Fail("cleared-vs-fresh", c08Case{Kind: "cleared-vs-fresh", Requests: append(reqs, q)}, "after %d searches and Clear(), the instance answers differently from a fresh one: %s", n, d)
+		}
+	})
+	r.Set("generation_boundary_searches", genRuns.Load())
+
 	// the hard budget also holds while pondering (the engine neither counts nor aborts then): a pondering search with
 	// budget N, stopped later from outside, never reports more than N nodes (the assertion does not depend on timing)
 	var ponderRuns atomic.Int64
@@ -424,7 +458,7 @@ func runC08(r *ev.Run) {
 	r.Set("race_pass", raceInfo)
 	r.Set("distinct_outcomes", map[string]int64{"hard_twins_that_aborted": counters[2].Load()})
 	r.Set("exhaustive", false)
-	r.Set("rule", "histories: engine-vs-engine games (tables carried over) where every search runs on two identically driven instances (results, reported lines with the time field masked, table/history/generation digests must be equal) and is replayed on a third with a hard budget equal to the nodes used (same result, same state left behind, budget never exceeded); every iteration boundary of a depth-6 search from the root corpus: soft limit firing after iteration j vs hard budget n_j, plus a follow-up search on both; further games under hard budgets that cut every search mid-iteration (37..9000 nodes) or before any iteration completes (1..20 nodes, the fallback move path), twins must agree; after every game and after searches cut between two iteration boundaries, Clear() must leave an instance that answers like a fresh one; half of the games call the search without WithCounters (as the UCI driver does); a pondering search with a hard budget stopped from outside never counts more than the budget; schedules: all games replayed on free-running goroutines must reproduce the sequential transcripts (complementary: the same body under the race detector); two instances interleaved at every poll of the instrumented search within the preemption bound must each reproduce their solo run")
+	r.Set("rule", "histories: engine-vs-engine games (tables carried over) where every search runs on two identically driven instances (results, reported lines with the time field masked, table/history/generation digests must be equal) and is replayed on a third with a hard budget equal to the nodes used (same result, same state left behind, budget never exceeded); every iteration boundary of a depth-6 search from the root corpus: soft limit firing after iteration j vs hard budget n_j, plus a follow-up search on both; further games under hard budgets that cut every search mid-iteration (37..9000 nodes) or before any iteration completes (1..20 nodes, the fallback move path), twins must agree; after every game, after searches cut between two iteration boundaries and after 255/256/257/512/513 searches (the generation counter is 8 bits wide), Clear() must leave an instance that answers like a fresh one; half of the games call the search without WithCounters (as the UCI driver does); a pondering search with a hard budget stopped from outside never counts more than the budget; schedules: all games replayed on free-running goroutines must reproduce the sequential transcripts (complementary: the same body under the race detector); two instances interleaved at every poll of the instrumented search within the preemption bound must each reproduce their solo run")
 	r.Assume("state left behind observed through the verif digests (table bytes, history tables, generation) and behaviourally by the following searches of the same game")
 }
 
